@@ -287,7 +287,7 @@ fn main() {
     for (fi, fam) in fams.iter().enumerate() {
         let stats = Stats::default();
         let seen_prune = SeenSet::default();
-        let stop_at = (0.92 * (fi as f64 + 1.0) / fams.len() as f64 + 0.04).min(0.95);
+        let stop_at = 0.93; let _ = fi; // families run smallest first; whatever does not fit is cut and reported
         let t0 = ctx.elapsed_s();
         explore::<F, F>(
             fam,
